@@ -374,3 +374,132 @@ Proof.
   - left. apply str_eqb_eq. assumption.
   - right. destruct H as [r ->]. apply prefixb_app.
 Qed.
+
+(* ---------- benign paths are served: the test is not over-restrictive ---------- *)
+
+Lemma normpath_abs_exact : forall p, starts_slash p = true ->
+  normpath p = repeat SL (init_slashes p) ++ intercalate (ncomps p).
+Proof.
+  intros p H. destruct p as [|c t]; [discriminate|].
+  unfold normpath. unfold init_slashes at 2 3. rewrite H. unfold init_slashes. rewrite H.
+  destruct (starts_slash (tl (c :: t)) && negb (starts_slash (tl (tl (c :: t))))); reflexivity.
+Qed.
+
+Lemma norm_plain_all : forall ps stack, Forall plain ps ->
+  norm_comps true stack ps = rev stack ++ ps.
+Proof.
+  induction ps as [|c ps IH]; intros stack H; simpl.
+  - rewrite app_nil_r. reflexivity.
+  - inversion H; subst.
+    rewrite (plain_nonnil c), (plain_not_dot c), (plain_not_dotdot c) by assumption. simpl.
+    rewrite IH by assumption. simpl. rewrite <- app_assoc. reflexivity.
+Qed.
+
+Lemma norm_app_plain : forall l stack ps, Forall plain ps ->
+  norm_comps true stack (l ++ ps) = norm_comps true stack l ++ ps.
+Proof.
+  induction l as [|x l IH]; intros stack ps H; simpl.
+  - apply norm_plain_all. assumption.
+  - destruct (isnil x || is_dot x); [apply IH; assumption|].
+    match goal with |- (if ?b then _ else _) = _ => destruct b end; apply IH; assumption.
+Qed.
+
+Lemma split_intercalate : forall ps, Forall plain ps -> ps <> [] -> split_slash (intercalate ps) = ps.
+Proof.
+  induction ps as [|a r IH]; intros H Hn; [congruence|].
+  inversion H as [|? ? Ha Hr]; subst.
+  assert (split_slash a = [a]) as Ea by (apply split_on_id; destruct Ha as (_ & _ & _ & X); exact X).
+  destruct r as [|b r]; [exact Ea|].
+  change (intercalate (a :: b :: r)) with (a ++ SL :: intercalate (b :: r)).
+  unfold split_slash in *. rewrite split_on_app, Ea, IH by (assumption || discriminate). reflexivity.
+Qed.
+
+Lemma intercalate_app : forall a b, a <> [] -> b <> [] ->
+  intercalate (a ++ b) = intercalate a ++ SL :: intercalate b.
+Proof.
+  induction a as [|x a IH]; intros b Ha Hb; [congruence|].
+  destruct a as [|y a].
+  - simpl. destruct b; [congruence|reflexivity].
+  - change (intercalate ((x :: y :: a) ++ b)) with (x ++ SL :: intercalate ((y :: a) ++ b)).
+    rewrite IH by (assumption || discriminate).
+    change (intercalate (x :: y :: a)) with (x ++ SL :: intercalate (y :: a)).
+    rewrite <- app_assoc. reflexivity.
+Qed.
+
+Lemma ends_slash_app : forall d, ends_slash (d ++ [SL]) = true.
+Proof. intros. unfold ends_slash. rewrite rev_app_distr. reflexivity. Qed.
+
+Lemma init_slashes_app : forall d y, starts_slash d = true -> ends_slash d = false ->
+  init_slashes (d ++ SL :: y) = init_slashes d.
+Proof.
+  intros d y Hs He. unfold init_slashes.
+  destruct d as [|a [|b [|c d]]]; try discriminate.
+  - unfold ends_slash in He. simpl in *. congruence.
+  - simpl in Hs. simpl. rewrite Hs.
+    assert (b =? SL = false) as Hb.
+    { unfold ends_slash in He. simpl in He. exact He. }
+    rewrite Hb. reflexivity.
+  - reflexivity.
+Qed.
+
+Lemma intercalate_head_plain : forall ps, Forall plain ps -> ps <> [] ->
+  intercalate ps <> [] /\ starts_slash (intercalate ps) = false.
+Proof.
+  intros ps H Hn. destruct ps as [|a r]; [congruence|]. inversion H as [|? ? Ha Hr]; subst.
+  pose proof (plain_no_leading_slash a Ha) as Hs.
+  destruct Ha as (Ha & _). destruct a as [|x a]; [congruence|].
+  destruct r; simpl in *; split; try discriminate; exact Hs.
+Qed.
+
+Lemma location_benign : forall d ps,
+  starts_slash d = true -> ends_slash d = false -> normpath d = d ->
+  Forall plain ps -> ps <> [] ->
+  location d (intercalate ps) = d ++ SL :: intercalate ps /\
+  inside d (location d (intercalate ps)) = true.
+Proof.
+  intros d ps Hs He Hn Hp Hne.
+  destruct (intercalate_head_plain ps Hp Hne) as [Hu1 Hu2].
+  set (u := intercalate ps) in *.
+  assert (location d u = d ++ SL :: u) as Hl.
+  { unfold location. destruct u as [|c u'] eqn:Eu; [congruence|]. rewrite <- Eu in *.
+    assert (join2 d u = d ++ SL :: u) as Hj.
+    { unfold join2. rewrite Hu2, He. destruct d; [discriminate|reflexivity]. }
+    rewrite Hj.
+    rewrite normpath_abs_exact by (destruct d; [discriminate|exact Hs]).
+    rewrite init_slashes_app by assumption.
+    assert (ncomps (d ++ SL :: u) = ncomps d ++ ps) as Hc.
+    { unfold ncomps, split_slash. rewrite split_on_app.
+      fold split_slash. unfold u. rewrite split_intercalate by assumption.
+      apply norm_app_plain. assumption. }
+    rewrite Hc.
+    pose proof (normpath_abs_exact d Hs) as Hd. rewrite Hn in Hd.
+    assert (ncomps d <> []) as Hnd.
+    { intro E. rewrite E in Hd. simpl in Hd. rewrite app_nil_r in Hd.
+      unfold init_slashes in Hd. rewrite Hs in Hd.
+      assert (ends_slash d = true) as X; [|congruence].
+      rewrite Hd. destruct (starts_slash (tl d) && negb (starts_slash (tl (tl d)))); reflexivity. }
+    rewrite intercalate_app by assumption.
+    rewrite app_assoc, <- Hd. reflexivity. }
+  split; [exact Hl|].
+  rewrite Hl. unfold inside. apply orb_true_iff. right.
+  unfold join2. simpl starts_slash. cbv iota. rewrite He.
+  destruct d as [|a d]; [discriminate|]. simpl isnil. simpl orb. cbv iota.
+  change ((a :: d) ++ SL :: u) with ((a :: d) ++ [SL] ++ u). rewrite app_assoc. apply prefixb_app.
+Qed.
+
+Theorem static_benign :
+  forall (fexists isfile isdir : str -> bool) (unq : str -> str) d defaults dirlisting reqpath ps,
+  starts_slash d = true -> ends_slash d = false -> normpath d = d ->
+  Forall plain ps -> ps <> [] ->
+  unq (strip_sl reqpath) = intercalate ps ->
+  fexists (d ++ SL :: intercalate ps) = true ->
+  isfile (d ++ SL :: intercalate ps) = true ->
+  isdir (d ++ SL :: intercalate ps) = false ->
+  static_request fexists isfile isdir unq None d defaults dirlisting reqpath
+  = File (d ++ SL :: intercalate ps).
+Proof.
+  intros fexists isfile isdir unq d defaults dirlisting reqpath ps Hs He Hn Hp Hne Hu Hx Hf Hd.
+  destruct (location_benign d ps Hs He Hn Hp Hne) as [Hl Hi].
+  unfold static_request, unmount. rewrite Hu, Hi, Hl, Hx, Hf. simpl.
+  unfold serve_file. rewrite Hx, Hd. reflexivity.
+Qed.
